@@ -104,12 +104,20 @@ pub fn gen_sources(rng: &mut Rng, tier: &Tier) -> Vec<Case> {
         }
         cases.push(c);
     }
-    // Cache on top: cached() after every pull
+    cases.extend(gen_source_cache(rng, tier));
+    cases
+}
+
+/// the source cache wrapper on top of random adapter trees: cached() before the first and after every pull
+/// (also after the end), next to the bare tree (the wrapper must be transparent)
+pub fn gen_source_cache(rng: &mut Rng, tier: &Tier) -> Vec<Case> {
+    let mut cases = Vec::new();
     for _ in 0..tier.n(200, 2000) {
         let e = src_expr(rng, 2, false);
-        let mut c = vec![format!("new 1 scache {}", e), "cached 1".to_string()];
+        let mut c = vec![format!("new 1 scache {}", e), format!("new 2 src {}", e), "cached 1".to_string()];
         for _ in 0..rng.range(2, 10) {
             c.push("pull 1".into());
+            c.push("pull 2".into());
             c.push("cached 1".into());
         }
         cases.push(c);
